@@ -586,3 +586,21 @@ pub fn fnv_mix(h: u64, v: u64) -> u64 {
     }
     h
 }
+
+/// Run `f` on a helper thread and wait at most `limit`. `None` means the code under test is
+/// spinning without ever yielding (it cannot be interrupted); the thread is left behind and dies
+/// with the process.
+pub fn run_with_deadline<T: Send + 'static>(
+    limit: Duration,
+    f: impl FnOnce() -> T + Send + 'static,
+) -> Option<T> {
+    let (tx, rx) = std::sync::mpsc::channel();
+    std::thread::Builder::new()
+        .stack_size(16 << 20)
+        .spawn(move || {
+            let r = f();
+            let _ = tx.send(r);
+        })
+        .ok()?;
+    rx.recv_timeout(limit).ok()
+}
